@@ -319,18 +319,14 @@ func (s *Sim) SetYield(site string, max time.Duration) { s.yieldSites[site] = ma
 func (s *Sim) yield(site string) {
 	s.yieldMu.Lock()
 	max, ok := s.yieldSites[site]
-	if !ok || max <= 0 {
-		s.yieldMu.Unlock()
-		return
-	}
-	n := s.yieldCount[site]
-	s.yieldCount[site] = n + 1
 	s.yieldMu.Unlock()
-	h := s.H("yield:"+site, n)
-	if h%4 == 0 { // a quarter of the calls do not yield at all
+	if !ok || max <= 0 {
 		return
 	}
-	d := time.Duration((h >> 8) % uint64(max))
+	// The delay is a function of (seed, site) only: a per-call counter would make the delay of
+	// one caller depend on the order in which concurrently runnable goroutines reach the site,
+	// which the Go runtime does not fix (random choice among ready select cases).
+	d := time.Duration(s.H("yield:"+site, 0) % uint64(max))
 	s.Probe("yield." + site)
 	time.Sleep(d + time.Nanosecond)
 }
